@@ -27,16 +27,18 @@ RULE = (
     "marker with no body, or is a re-application. Distinct = SHA-1 of (entry point, input)."
 )
 TIERS = {
-    "quick": {"shards": 8, "exh_len": 4, "hyp": 250, "doctrans": 12, "budget_s": 220},
+    "quick": {"shards": 8, "exh_len": 4, "hyp": 500, "doctrans": 12, "budget_s": 220},
     "thorough": {"shards": 16, "exh_len": 5, "hyp": 8000, "doctrans": 400, "budget_s": 2700},
 }
 FLOOR = {"quick": 20000, "thorough": 200000}
-REQUIRED_LABELS = {"quick": ["ws-first-line", "marker-no-body", "reapplied", "fn:emit_doc", "fn:doctrans"], "thorough": []}
+REQUIRED_LABELS = {"quick": ["ws-first-line", "marker-no-body", "reapplied", "fn:emit_doc", "fn:doctrans", "fn:param_doc", "fn:adhoc"], "thorough": []}
 ASSUMPTIONS = [
     "a step = one `line` trace event inside a file of VERIF_REPO/cdd; B(n) = 1e5 + c*(n+50) with c = 1000 (10000 for doctrans and cst_parse), >=20x the largest steps-per-character ratio observed on the unchanged tree over the generated sizes",
     "the stage-1 timer (>=1 s for inputs of <=60 characters, i.e. >=10^4 x the normal time) only selects candidates; a call that finishes late but inside the step budget is recorded as slow (inconclusive), never as a violation",
 ]
-TOK = [":param ", ":type ", ":return: ", ":rtype: ", "Args:\n", "Returns:\n", "Raises:\n", "Parameters\n----------\n", "Returns\n-------\n", "name", " (int)", "```", ":", "\n", "  ", "    ", "Defaults to ", "."]
+TOK = [":param ", ":type ", ":return: ", ":rtype: ", "Args:\n", "Returns:\n", "Raises:\n", "Parameters\n----------\n", "Returns\n-------\n", "name", " (int)", "```", ":", "\n", "  ", "    ", "Defaults to ", ".", " or ", "\t", "'x'"]
+# tokens of the prose-to-type scanners (union / literal / "list of" sentences), with non-blank whitespace
+TYPEY = ["One of ", "Either ", "'min'", "'max'", '"a"', ",", ", ", "\t", "\n", "\n    ", " ", "\u00a0", " or ", " of ", "`x`", "`np`", "list", "str", "int", "dict", "tuple", "number", ".", ". ", "whether ", "string", "None", "optional", "default", "(", ")", "[", "]"]
 
 
 class Trip(BaseException):
@@ -110,6 +112,9 @@ def init_worker(ctx):
     FNS = {
         "parse": lambda s: parse_docstring(s),
         "parse_top": lambda s: cdd.docstring.parse.docstring(s, emit_default_doc=False),
+        "parse_nowrap": lambda s: parse_docstring(s, word_wrap=False),
+        "param_doc": lambda s: parse_docstring(":param mode: %s\n:type mode: ```str```\n" % s),
+        "param_doc_nowrap": lambda s: parse_docstring("Args:\n  mode: %s\n" % s, word_wrap=False),
         "split": lambda s: split(s, s),
         "extract": lambda s: extract_default(s, emit_default_doc=False),
         "adhoc": lambda s: parse_adhoc_doc_for_typ(s, "x", False),
@@ -232,6 +237,32 @@ def layer_exhaustive(ctx):
         ctx.stats.notes.append("exhaustive layer cut at deadline in shard %d" % ctx.shard)
 
 
+def layer_exhaustive_typey(ctx):
+    """every sequence of <=3 (quick) / <=4 (thorough) TYPEY tokens through the prose-to-type entry points"""
+    L = 3 if ctx.tier == "quick" else 4
+    n = 0
+    complete = True
+    for length in range(1, L + 1):
+        for seq in itertools.product(TYPEY, repeat=length):
+            n += 1
+            if n % ctx.nshards != ctx.shard:
+                continue
+            if n % 2048 == ctx.shard and ctx.expired():
+                complete = False
+                break
+            s = "".join(seq)
+            for fname in ("adhoc", "param_doc", "param_doc_nowrap"):
+                case = {"fn": fname, "arg": s}
+                r = run_case(case)
+                if ctx.record(case, r):
+                    ctx.violation(case, r.failures)
+                    return
+        if not complete:
+            break
+    if complete:
+        ctx.mark_exhaustive("exhaustive-typey", "all sequences of 1..%d tokens over the %d-token prose-to-type alphabet (%d strings) x 3 entry points" % (L, len(TYPEY), n))
+
+
 PROSE = st.one_of(
     st.sampled_from(["", " ", "  \nfoo", "\nfoo", "\n\n", "   ", "\t\nx", "foo\n  \n", "Args:", "Returns:\n", ":param", ":param a", "Parameters\n----------", "x\n\n  \n\n", "``", "Defaults to", "a\n" * 5]),
     st.lists(st.sampled_from(TOK + ["foo", "bar baz", " ", "\t", "\n\n", "  \n"]), max_size=25).map("".join),
@@ -256,7 +287,11 @@ def emit_case(draw):
 
 def text_case():
     soup = st.lists(st.sampled_from(TOK + ["foo", " ", "\n\n", "int", "(", ")", "Optional[", "]", "'", '"']), max_size=40).map("".join)
-    return st.builds(lambda f, s: {"fn": f, "arg": s}, st.sampled_from(["parse", "parse_top", "split", "extract", "adhoc", "emit_doc", "emit_orig", "cst"]), st.one_of(soup, PROSE))
+    typey = st.lists(st.sampled_from(TYPEY), min_size=1, max_size=14).map("".join)
+    return st.one_of(
+        st.builds(lambda f, s: {"fn": f, "arg": s}, st.sampled_from(["parse", "parse_top", "parse_nowrap", "split", "extract", "adhoc", "emit_doc", "emit_orig", "cst"]), st.one_of(soup, PROSE)),
+        st.builds(lambda f, s: {"fn": f, "arg": s}, st.sampled_from(["adhoc", "param_doc", "param_doc_nowrap", "parse_nowrap", "extract"]), typey),
+    )
 
 
 def layer_hypothesis(ctx):
@@ -276,7 +311,7 @@ def layer_doctrans(ctx):
     ctx.run_given("doctrans", doctrans_case(), run_case, ctx.cfg["doctrans"], shrink_budget=6)
 
 
-LAYERS = [("exhaustive", layer_exhaustive), ("hypothesis", layer_hypothesis), ("doctrans", layer_doctrans)]
+LAYERS = [("exhaustive", layer_exhaustive), ("exhaustive-typey", layer_exhaustive_typey), ("hypothesis", layer_hypothesis), ("doctrans", layer_doctrans)]
 COLLECT = lambda ctx: (st.one_of(emit_case(), text_case(), doctrans_case()), run_case)
 
 
